@@ -87,5 +87,7 @@ void destroy_replica(World &w, int ri);
 void oracle_restrict(World &w, int ri, const Dump &B, const Dump &A, const BSet &S, unsigned long fl, int rc, int err);
 void models_after_restrict(World &w, int ri, const Dump &B, const Dump &A);
 void check_models(World &w, int ri, const char *ctx);
+void models_init(World &w, int ri);
+void derive_models(World &w, int si, int di, bool fresh);
 
 }  // namespace hwsim
